@@ -7,9 +7,23 @@ Oracle (real code):
          every attribute of q.data equals p's (rate-coded blocks: q.data.convert(type of p), and equal bits), q.as_bytes() == x
   voice  any 216 vocoder bits around a voice sync (any burst type) / around valid EMB (cc, PI, LCSS, QR parity) with any 32 embedded
          bits (burst type vocoder / undefined):  Burst.from_bytes(x).as_bytes() == x
+  near   structured inputs at minimal Hamming distance from every constant the parser compares against: for every sync pattern S and
+         every valid EMB word E (all 128) the voice burst centre E[0:8] ++ X ++ E[8:16] with X = S[8:40] (the valid-EMB centre nearest to
+         S), and X with 1..3 bits flipped around the EMB words nearest to S's outer bits; a wide screen of the centre lookup itself
+         (SyncPatterns.resolve_bytes on every such centre with <= 2 flips, sampled 3 flips; every hit is promoted to a full voice
+         burst); vocoder bits that contain a sync pattern at other offsets; vocoder bits that hold a valid slot type word at the
+         slot type positions; rate 1 payloads that contain a sync pattern (raw on air)
+  reuse  object-reuse histories on ONE Burst object, for every payload kind / variant: serialise, change fields of the SAME payload
+         object in place (attribute by attribute, nested objects / bit arrays in place), serialise again; replace slot type (colour
+         code, header <-> terminator), sync, payload (also a new object at a recycled address); parse -> mutate -> serialise;
+         as_bits twice and after scribbling over the returned bits; every result equals a freshly assembled burst of the same field
+         values (and the model's), parses back to the new field values; parsed / assembled bursts held across the whole run and
+         re-verified at the end
 Correspondence (model vs code): burst.build -> bits; burst.parse -> sync, flags, EMB, slot type, payload fields, as_bits or error
-kind, also for random and corrupted 264-bit strings; slot.dec / emb.dec.
+kind, also for random and corrupted 264-bit strings; slot.dec / emb.dec; sync.resolve on the structured centres.
 """
+import copy
+import enum
 import json
 
 from bitarray import bitarray
@@ -156,9 +170,11 @@ def impl_parse(bits, bt):
 
 
 # ------------------------------------------------------------------------------------------------
-def check_data(ctx, kname, dt, src, variant, vals, cc, sync, pairs_build, pairs_parse, bts=("D",)):
+def check_data(ctx, kname, dt, src, variant, vals, cc, sync, pairs_build, pairs_parse, bts=("D",), hold=None, extra=None):
     Burst, BT, DT, SP, ST, EMB = lib()
     inp = {"mode": "data", "kind": kname, "c03kind": src.name, "variant": variant.name, "fields": vals, "cc": cc, "sync": sync.name}
+    if extra:
+        inp.update(extra)
     p, err = call(variant.build, vals)
     if err:
         ctx.fail("payload-constructor-raises", inp, f"{kname}/{variant.name}: building the payload raised {err}", actual=err)
@@ -172,16 +188,33 @@ def check_data(ctx, kname, dt, src, variant, vals, cc, sync, pairs_build, pairs_
         ctx.fail("serialise-raises", inp, f"{kname}/{variant.name}: as_bits of the assembled burst raised {err}", actual=err)
         pairs_build.append((build_line(cc, sync, kname, src, variant, vals, p), err))
         return
+    pairs_build.append((build_line(cc, sync, kname, src, variant, vals, p), c03.sbits(x)))
+    q = verify_roundtrip(ctx, inp, kname, variant.name, p, dt, cc, sync, b, pairs_parse, bts)
+    if hold is not None:
+        hold.offer(b, b.as_bytes, None, inp)
+        if q is not None:
+            hold.offer(q, b.as_bytes, lambda: parse_text(q), inp)
+
+
+def verify_roundtrip(ctx, inp, kname, vname, p, dt, cc, sync, b, pairs_parse, bts=("D",)):
+    """the property for one burst object b that is to be serialised from payload p, colour code cc, data type dt, sync:
+    264 bits / 33 octets; parsed back (every announced burst type of bts): data type, colour code, sync, every payload
+    attribute as p's, re-serialised identically.  Returns the last parsed burst."""
+    Burst, BT, DT, SP, ST, EMB = lib()
+    x, err = call(b.as_bits)
+    if err:
+        ctx.fail("serialise-raises", inp, f"{kname}/{vname}: as_bits raised {err}", actual=err)
+        return None
     xs = c03.sbits(x)
-    pairs_build.append((build_line(cc, sync, kname, src, variant, vals, p), xs))
     if len(x) != 264 or len(b.as_bytes()) != 33:
         ctx.fail("wrong-length", inp, f"{kname}: assembled burst has {len(x)} bits", expected=264, actual=len(x))
-        return
+        return None
     pa = c03.attrs(p)
+    q = None
     for bt in bts:
         q, err = call(Burst.from_bytes, b.as_bytes(), getattr(BT, BT_NAMES[bt]))
         if err:
-            ctx.fail("parse-raises", inp, f"{kname}/{variant.name}: parsing the assembled burst ({bt}) raised {err}", actual=err)
+            ctx.fail("parse-raises", inp, f"{kname}/{vname}: parsing the assembled burst ({bt}) raised {err}", actual=err)
             pairs_parse.append((f"burst.parse {bt} {xs}", err))
             continue
         pairs_parse.append((f"burst.parse {bt} {xs}", parse_text(q)))
@@ -198,24 +231,25 @@ def check_data(ctx, kname, dt, src, variant, vals, cc, sync, pairs_build, pairs_
             qd = q.data
             if kname.startswith("rate"):
                 if qd.as_bits() != p.as_bits():
-                    ctx.fail("payload-bits", inp, f"{kname}/{variant.name}: parsed block bits differ", expected=c03.sbits(p.as_bits()), actual=c03.sbits(qd.as_bits()))
+                    ctx.fail("payload-bits", inp, f"{kname}/{vname}: parsed block bits differ", expected=c03.sbits(p.as_bits()), actual=c03.sbits(qd.as_bits()))
                 qd, e3 = call(qd.convert, p.packet_type)
                 if e3:
-                    ctx.fail("payload-fields", inp, f"{kname}/{variant.name}: convert({p.packet_type.name}) raised {e3}", actual=e3)
+                    ctx.fail("payload-fields", inp, f"{kname}/{vname}: convert({p.packet_type.name}) raised {e3}", actual=e3)
                     qd = None
             if qd is not None:
                 d = c03.diff_attrs(pa, c03.attrs(qd))
                 if d:
                     qa = c03.attrs(qd)
-                    ctx.fail("payload-fields", inp, f"{kname}/{variant.name}: parsed payload differs from the assembled one in {d}",
+                    ctx.fail("payload-fields", inp, f"{kname}/{vname}: parsed payload differs from the one the burst was serialised from in {d}",
                              expected={k: pa.get(k) for k in d}, actual={k: qa.get(k) for k in d})
         y, e4 = call(q.as_bytes)
         if e4 or y != b.as_bytes():
-            ctx.fail("reserialise", inp, f"{kname}/{variant.name}: re-serialised burst differs from the assembled one",
+            ctx.fail("reserialise", inp, f"{kname}/{vname}: re-serialised burst differs from the assembled one",
                      expected=b.as_bytes().hex(), actual=e4 or y.hex())
+    return q
 
 
-def check_voice(ctx, x, bt, what, inp, pairs_parse):
+def check_voice(ctx, x, bt, what, inp, pairs_parse, hold=None, twice=False):
     Burst, BT, DT, SP, ST, EMB = lib()
     xs = c03.sbits(x)
     q, err = call(Burst.from_bytes, x.tobytes(), getattr(BT, BT_NAMES[bt]))
@@ -227,6 +261,101 @@ def check_voice(ctx, x, bt, what, inp, pairs_parse):
     y, err = call(q.as_bytes)
     if err or y != x.tobytes():
         ctx.fail("voice-roundtrip", inp, f"voice burst ({what}, {bt}) does not survive parse-then-serialise", expected=x.tobytes().hex(), actual=err or y.hex())
+        return
+    if twice:
+        serialise_twice(ctx, q, inp, f"voice burst ({what}, {bt})")
+    if hold is not None:
+        hold.offer(q, y, lambda: parse_text(q), inp)
+
+
+def serialise_twice(ctx, b, inp, what):
+    """as_bits is repeatable and hands out bits the caller may scribble over"""
+    x1, e1 = call(b.as_bits)
+    x2, e2 = call(b.as_bits)
+    if e1 or e2 or x1 != x2:
+        ctx.fail("reuse-serialise-twice", inp, f"{what}: two consecutive as_bits() calls differ", expected=e1 or c03.sbits(x1), actual=e2 or c03.sbits(x2))
+        return
+    want = bitarray(x1)
+    x1.invert()
+    x2[:] = 0
+    x3, e3 = call(b.as_bits)
+    if e3 or x3 != want:
+        ctx.fail("reuse-returned-bits-aliased", inp, f"{what}: as_bits() after the caller changed the previously returned bits differs",
+                 expected=c03.sbits(want), actual=e3 or c03.sbits(x3))
+        return
+    y, e4 = call(b.as_bytes)
+    if e4 or y != want.tobytes():
+        ctx.fail("reuse-serialise-twice", inp, f"{what}: as_bytes() differs from as_bits()", expected=want.tobytes().hex(), actual=e4 or y.hex())
+
+
+def voice_emb_reuse(ctx, x, bt, emb2, inp):
+    """a voice burst with EMB is parsed; the EMB object the parse returned is changed in place to another valid EMB word; the object
+    serialises with the new word, and a second parse of the original octets is not affected"""
+    Burst, BT, DT, SP, ST, EMB = lib()
+    q, err = call(Burst.from_bytes, x.tobytes(), getattr(BT, BT_NAMES[bt]))
+    if err or q.emb is None:
+        return  # reported by the plain round trip
+    cc2, pi2, lcss2, e16 = emb2
+    copy_state(q.emb, EMB(colour_code=cc2, preemption_and_power_control_indicator=pi2, link_control_start_stop=lcss2), True)
+    want = bitarray(x)
+    want[108:116], want[148:156] = e16[:8], e16[8:]
+    got = bits_or_err(q)
+    if got != c03.sbits(want):
+        ctx.fail("reuse-stale-serialisation", dict(inp, emb2=[cc2, pi2, lcss2], history=f"EMB object changed in place to cc={cc2} pi={pi2} lcss={lcss2}"),
+                 "voice burst: after changing the parsed EMB object in place the burst does not serialise with the new EMB word", expected=c03.sbits(want), actual=got)
+    q1, err = call(Burst.from_bytes, x.tobytes(), getattr(BT, BT_NAMES[bt]))
+    got = err or bits_or_err(q1)
+    if got != c03.sbits(x):
+        ctx.fail("reuse-parse-results-share-state", dict(inp, emb2=[cc2, pi2, lcss2], history=f"EMB object of an earlier parse changed in place to cc={cc2} pi={pi2} lcss={lcss2}"),
+                 "voice burst: parsing the same octets again after the EMB object of the first parse result was changed gives a different burst", expected=c03.sbits(x), actual=got)
+
+
+def shifted_sync_frames(rng, shifts, per):
+    """voice bursts with valid EMB in which a sync pattern P sits k bits off the centre: every bit of the window [108+k, 156+k) that is
+    not an EMB bit (vocoder and embedded bits) equals P; for each (P, k) the `per` EMB words that agree best with P on the EMB bits the
+    window covers.  Yields (P, k, (cc, pi, lcss), mismatching bits, frame)"""
+    voice, data, other = sync_sets()
+    embs = emb_table()
+    emb_pos = list(range(108, 116)) + list(range(148, 156))
+    for sp_ in voice + data + other:
+        pb = sp_.as_bits()
+        for k in shifts:
+            lo = 108 + k
+            cover = [(i, pos) for i, pos in enumerate(emb_pos) if lo <= pos < lo + 48]
+            ranked = sorted(embs, key=lambda e: (sum(e[3][i] != pb[pos - lo] for i, pos in cover), e[0], e[1], e[2]))
+            for cc, pi, lcss, e16 in ranked[:per]:
+                x = int2ba(rng.getrandbits(264), length=264)
+                x[lo:lo + 48] = pb
+                x[108:116], x[148:156] = e16[:8], e16[8:]
+                yield sp_, k, (cc, pi, lcss), sum(e16[i] != pb[pos - lo] for i, pos in cover), x
+
+
+class Hold:
+    """parsed / assembled burst objects kept alive while the run goes on parsing and assembling other bursts; re-verified at the end
+    (a result object that shares mutable state with later calls changes under our feet)"""
+
+    def __init__(self, every, cap):
+        self.every, self.cap, self.n, self.items = max(1, every), cap, 0, []
+
+    def offer(self, obj, want_bytes, want_text, inp):
+        """want_bytes / want_text may be thunks (evaluated only for the objects that are kept)"""
+        self.n += 1
+        if self.n % self.every == 0 and len(self.items) < self.cap:
+            self.items.append((obj, want_bytes() if callable(want_bytes) else want_bytes, want_text() if callable(want_text) else want_text, inp))
+
+    def verify(self, ctx):
+        for obj, want_bytes, want_text, inp in self.items:
+            ctx.count("reuse:held-object-reverified")
+            y, err = call(obj.as_bytes)
+            if err or y != want_bytes:
+                ctx.fail("reuse-held-object-changed", dict(inp, history="held across the run"), "a burst object held while other bursts were parsed / assembled serialises differently afterwards",
+                         expected=want_bytes.hex(), actual=err or y.hex())
+                continue
+            if want_text is not None:
+                t, err = call(parse_text, obj)
+                if err or t != want_text:
+                    ctx.fail("reuse-held-object-changed", dict(inp, history="held across the run"), "the attributes of a parsed burst object held while other bursts were parsed changed",
+                             expected=want_text, actual=err or t)
 
 
 def emb_word(cc, pi, lcss):
@@ -236,6 +365,264 @@ def emb_word(cc, pi, lcss):
 
 def voice_frame(v, center):
     return v[:108] + center + v[108:]
+
+
+def hd(a, b):
+    return (a ^ b).count()
+
+
+def emb_table():
+    """all 128 valid EMB words (cc, pi, lcss, 16 bits with the QR parity the library generates)"""
+    return [(cc, pi, lcss, emb_word(cc, pi, lcss)) for cc in range(16) for pi in range(2) for lcss in range(4)]
+
+
+def flipped(x, positions):
+    y = bitarray(x)
+    for i in positions:
+        y.invert(i)
+    return y
+
+
+def near_sync_centres(rng, n_multi, n_far=0):
+    """structured centres: for every sync pattern S and every valid EMB word E the centre E[0:8] ++ X ++ E[8:16] with the 32 embedded
+    bits X as close to S[8:40] as possible: X = S[8:40] for all E; for the EMB words nearest to S's outer bits (minimal distance, +1,
+    at least 4 words) also every single-bit neighbour of S[8:40] and n_multi random 2- and 3-bit neighbours.
+    Yields (S, (cc, pi, lcss), distance of E to S's outer bits, number of flipped embedded bits, centre)"""
+    voice, data, other = sync_sets()
+    embs = emb_table()
+    for s in voice + data + other:
+        sb = s.as_bits()
+        outer, mid = sb[:8] + sb[40:], sb[8:40]
+        ranked = sorted(embs, key=lambda e: (hd(e[3], outer), e[0], e[1], e[2]))
+        dmin = hd(ranked[0][3], outer)
+        for rank, (cc, pi, lcss, e16) in enumerate(ranked):
+            d = hd(e16, outer)
+            yield s, (cc, pi, lcss), d, 0, e16[:8] + mid + e16[8:]
+            if d <= dmin + 1 or rank < 4:
+                for i in range(32):
+                    yield s, (cc, pi, lcss), d, 1, e16[:8] + flipped(mid, [i]) + e16[8:]
+                for k in range(n_multi):
+                    yield s, (cc, pi, lcss), d, 2 + k % 2, e16[:8] + flipped(mid, rng.sample(range(32), 2 + k % 2)) + e16[8:]
+            else:
+                for k in range(n_far):
+                    yield s, (cc, pi, lcss), d, 1 + k % 3, e16[:8] + flipped(mid, rng.sample(range(32), 1 + k % 3)) + e16[8:]
+
+
+def resolve_screen_centres(rng, n_triple):
+    """the wide screen of the centre lookup: every sync S x every valid EMB E: X = S[8:40] and its 32 single-bit neighbours; for the 8
+    EMB words nearest to S's outer bits all 496 two-bit neighbours; for the 2 nearest n_triple random three-bit neighbours"""
+    voice, data, other = sync_sets()
+    embs = emb_table()
+    for s in voice + data + other:
+        sb = s.as_bits()
+        outer, mid = sb[:8] + sb[40:], sb[8:40]
+        ranked = sorted(embs, key=lambda e: (hd(e[3], outer), e[0], e[1], e[2]))
+        for rank, (cc, pi, lcss, e16) in enumerate(ranked):
+            head, tail = ba2int(e16[:8]) << 40, ba2int(e16[8:])
+            m = ba2int(mid)
+            yield s, (cc, pi, lcss), head | (m << 8) | tail
+            for i in range(32):
+                yield s, (cc, pi, lcss), head | ((m ^ (1 << i)) << 8) | tail
+            if rank < 8:
+                for i in range(32):
+                    for j in range(i):
+                        yield s, (cc, pi, lcss), head | ((m ^ (1 << i) ^ (1 << j)) << 8) | tail
+            if rank < 2:
+                for _ in range(n_triple):
+                    i, j, k = rng.sample(range(32), 3)
+                    yield s, (cc, pi, lcss), head | ((m ^ (1 << i) ^ (1 << j) ^ (1 << k)) << 8) | tail
+
+
+# ------------------------------------------------------------------------------------------------
+# object-reuse histories
+def copy_state(dst, src, nested, only=None):
+    """give the object dst the field values of src by assigning attributes of dst itself (dst is never replaced); nested: objects and
+    bit arrays held in attributes are changed in place, too.  only: restrict to these attribute names.  Returns the names changed."""
+    changed = []
+    for k, v in vars(src).items():
+        if only is not None and k not in only:
+            continue
+        cur = getattr(dst, k, None)
+        if type(cur) is type(v) and c03.canon(cur) == c03.canon(v):
+            continue
+        changed.append(k)
+        if nested and hasattr(v, "__dict__") and not isinstance(v, enum.Enum) and type(cur) is type(v):
+            copy_state(cur, v, nested)
+        elif nested and isinstance(v, bitarray) and isinstance(cur, bitarray) and len(cur) == len(v):
+            cur[:] = v
+        else:
+            setattr(dst, k, copy.deepcopy(v))
+    return changed
+
+
+def differing(a, b):
+    return [k for k, v in vars(b).items() if not (type(getattr(a, k, None)) is type(v) and c03.canon(getattr(a, k, None)) == c03.canon(v))]
+
+
+def bits_or_err(b):
+    x, err = call(b.as_bits)
+    return err or c03.sbits(x)
+
+
+HISTORY_SCRIPTS = ("mutate-fields", "mutate-nested", "replace-slot-sync", "replace-payload", "recycled-payload", "parse-mutate", "parse-serialise-mutate",
+                   "parse-mutate-slot-in-place", "twice")
+
+
+def other_kind(kname, dt):
+    """a second data type the same payload object may legitimately be sent with (full LC: header <-> terminator)"""
+    Burst, BT, DT, SP, ST, EMB = lib()
+    if kname == "vlc":
+        return "tlc", DT.TerminatorWithLC
+    if kname == "tlc":
+        return "vlc", DT.VoiceLCHeader
+    return kname, dt
+
+
+def run_history(ctx, spec, pairs_build, pairs_parse):
+    """one history on ONE Burst object (spec is JSON-able, see replay).  After every step the object must serialise exactly as a burst
+    freshly assembled from (a deep copy of) the current payload, colour code, data type and sync, and - at the end - as the burst
+    assembled from a payload newly constructed from the final field values; that burst must parse back to these values."""
+    Burst, BT, DT, SP, ST, EMB = lib()
+    srcs = {(k, s.name): (k, dt, s, t) for k, dt, s, t in payload_sources()}
+    kname, dt, src, _ = srcs[(spec["kind"], spec["c03kind"])]
+    var = next(v for v in src.variants if v.name == spec["variant"])
+    vals1, vals2 = spec["fields"], spec["fields2"]
+    cc1, cc2, s1, s2 = spec["cc"], spec["cc2"], SP[spec["sync"]], SP[spec["sync2"]]
+    script = spec["script"]
+    what = f"reuse history {script} ({kname}/{var.name})"
+    p, err = call(var.build, vals1)
+    p2, err2 = call(var.build, vals2)
+    if err or err2:
+        ctx.fail("payload-constructor-raises", spec, f"{what}: building the payload raised {err or err2}", actual=err or err2)
+        return
+    b, err = call(assemble, p, cc1, dt, s1)
+    if err:
+        ctx.fail("assemble-raises", spec, f"{what}: assembling the burst raised {err}", actual=err)
+        return
+
+    def same_as_fresh(obj, payload, cc, d, sync, step):
+        """obj (re-used) against a burst assembled from scratch with a deep copy of the payload as it is now"""
+        got = bits_or_err(obj)
+        fresh, err = call(assemble, copy.deepcopy(payload), cc, d, sync)
+        want = err or bits_or_err(fresh)
+        if got != want:
+            ctx.fail("reuse-stale-serialisation", dict(spec, step=step),
+                     f"{what}, step '{step}': the re-used burst object does not serialise as a freshly assembled burst of the same field values",
+                     expected=want, actual=got)
+            return False
+        return True
+
+    def final(obj, kn, d, cc, sync, vals, payload_new):
+        """at the end: model line for the final values (output of the RE-USED object) and the property on it"""
+        got = bits_or_err(obj)
+        pairs_build.append((build_line(cc, sync, kn, src, var, vals, payload_new), got))
+        if not got.startswith("ERR"):
+            verify_roundtrip(ctx, dict(spec, step="final"), kn, var.name, payload_new, d, cc, sync, obj, pairs_parse, bts=("D",))
+
+    first = bits_or_err(b)
+    if first.startswith("ERR"):
+        ctx.fail("serialise-raises", spec, f"{what}: as_bits of the assembled burst raised {first}", actual=first)
+        return
+
+    def reparse_unchanged(raw, want, why):
+        """a second parse of the same octets is independent of what was done to the first parse result"""
+        q1, err = call(Burst.from_bytes, raw, BT.DataAndControl)
+        got = err or bits_or_err(q1)
+        if got != want:
+            ctx.fail("reuse-parse-results-share-state", dict(spec, step="second parse of the same octets"),
+                     f"{what}: parsing the same 33 octets again after {why} gives a burst that serialises differently", expected=want, actual=got)
+        elif not err:
+            cc_, e = call(lambda: q1.colour_code)
+            if e or cc_ != cc1:
+                ctx.fail("reuse-parse-results-share-state", dict(spec, step="second parse of the same octets"),
+                         f"{what}: parsing the same 33 octets again after {why} gives colour code {e or cc_}", expected=cc1, actual=e or cc_)
+
+    if script in ("mutate-fields", "mutate-nested"):
+        names = differing(p, p2)
+        ok = True
+        for i, k in enumerate(names):
+            copy_state(p, p2, script == "mutate-nested", only=[k])
+            if ok and (i == 0 or i == len(names) - 1 or script == "mutate-nested"):
+                ok = same_as_fresh(b, p, cc1, dt, s1, f"after changing payload attribute {k} in place")
+        final(b, kname, dt, cc1, s1, vals2, p2)
+    elif script == "replace-slot-sync":
+        k2, dt2 = other_kind(kname, dt)
+        b.slot_type = ST(colour_code=cc2, data_type=dt2)
+        ok = same_as_fresh(b, p, cc2, dt2, s1, "after replacing the slot type")
+        b.sync_or_embedded_signalling = s2
+        ok = ok and same_as_fresh(b, p, cc2, dt2, s2, "after replacing the sync pattern")
+        final(b, k2, dt2, cc2, s2, vals1, p)
+    elif script == "replace-payload":
+        b.data = p2
+        same_as_fresh(b, p2, cc1, dt, s1, "after assigning another payload object")
+        b.data = p
+        same_as_fresh(b, p, cc1, dt, s1, "after assigning the first payload object again")
+        copy_state(p, p2, False)
+        final(b, kname, dt, cc1, s1, vals2, p2)
+    elif script == "recycled-payload":
+        # no reference to the old payload survives: the new object may live at the same address
+        del p
+        for vals in (vals2, vals1, vals2):
+            b.data = None
+            b.data = var.build(vals)
+            same_as_fresh(b, b.data, cc1, dt, s1, "after assigning a newly built payload (old one released)")
+        final(b, kname, dt, cc1, s1, vals2, p2)
+    elif script in ("parse-mutate", "parse-serialise-mutate"):
+        want2, err = call(assemble, p2, cc2, dt, s2)
+        want2 = err or bits_or_err(want2)
+        if want2.startswith("ERR"):
+            return
+        q, err = call(Burst.from_bytes, b.as_bytes(), BT.DataAndControl)
+        q2, err2 = call(Burst.from_bytes, bitarray(want2).tobytes(), BT.DataAndControl)
+        if err or err2 or q.data is None or q2.data is None:
+            return  # reported by the plain round trip
+        if script == "parse-serialise-mutate":
+            if bits_or_err(q) != first:
+                return  # reported by the plain round trip
+        copy_state(q.data, q2.data, True)
+        q.slot_type = ST(colour_code=cc2, data_type=dt)
+        q.sync_or_embedded_signalling = s2
+        got = bits_or_err(q)
+        if got != want2:
+            ctx.fail("reuse-stale-serialisation", dict(spec, step="parsed burst changed"),
+                     f"{what}: a parsed burst whose payload fields, slot type and sync were changed does not serialise as the burst assembled from these values",
+                     expected=want2, actual=got)
+        reparse_unchanged(b.as_bytes(), first, "the payload of an earlier parse result was changed")
+        final(q, kname, dt, cc2, s2, vals2, p2)
+    elif script == "parse-mutate-slot-in-place":
+        # the slot type object a parse returned is changed in place (to the values SlotType(cc2, dt) holds)
+        q, err = call(Burst.from_bytes, b.as_bytes(), BT.DataAndControl)
+        if err or q.slot_type is None:
+            return  # reported by the plain round trip
+        copy_state(q.slot_type, ST(colour_code=cc2, data_type=dt), True)
+        same_as_fresh(q, p, cc2, dt, s1, "after changing the parsed burst's slot type object in place")
+        reparse_unchanged(b.as_bytes(), first, "the slot type object of an earlier parse result was changed")
+        final(q, kname, dt, cc2, s1, vals1, p)
+    elif script == "twice":
+        serialise_twice(ctx, b, spec, what + ", assembled burst")
+        q, err = call(Burst.from_bytes, b.as_bytes(), BT.DataAndControl)
+        if not err:
+            serialise_twice(ctx, q, spec, what + ", parsed burst")
+            rp, err = call(repr, q)  # __repr__ serialises, too
+            if bits_or_err(q) != first:
+                ctx.fail("reuse-stale-serialisation", dict(spec, step="after repr"), f"{what}: as_bits() after repr() differs", expected=first, actual=bits_or_err(q))
+        final(b, kname, dt, cc1, s1, vals1, p)
+
+
+def vary(rng, var, vals, fix):
+    """vals with one or two fields changed (never equal to vals), CRC left to the constructor half of the time"""
+    for _ in range(8):
+        v2 = dict(vals)
+        names = [n for n, _s in var.fields if n not in ("crc", "flco")]
+        for fname in rng.sample(names, min(len(names), rng.choice((1, 1, 2)))):
+            spec = dict(var.fields)[fname]
+            v2[fname] = rng.choice(spec.specials(rng)) if rng.random() < 0.3 else spec.rand(rng)
+        if var.fix:
+            v2 = var.fix(v2)
+        v2 = fix(v2)
+        if v2 != vals:
+            return v2
+    return v2
 
 
 def run(ctx):
@@ -248,11 +635,16 @@ def run(ctx):
         "random tuples), first tuple of every variant with all 16 colour codes x 4 data syncs, the others with random ones; parsed with "
         "every burst type; voice bursts: random 216 vocoder bits around every sync pattern x burst types and around valid EMB for all 128 "
         "(cc, PI, LCSS) x random 32 embedded bits; correspondence additionally on random 264-bit strings and 1-3 bit corruptions of valid "
-        "bursts. distinct = distinct (kind, variant, fields, cc, sync) / burst bit string"
+        "bursts. structured: for every sync pattern S x every valid EMB word E the voice burst centre E[0:8]+S[8:40]+E[8:16] nearest to S, all "
+        "single-bit and sampled 2-3-bit neighbours around the nearest EMB words, a screen of the centre lookup over all such centres with <= 2 "
+        "flips, sync patterns inside the vocoder bits, valid slot type words at the slot type positions of voice bursts, rate 1 payloads "
+        "holding a sync pattern. reuse histories on one Burst object for every kind / variant x 8 scripts (in-place payload mutation, slot "
+        "type / sync / payload replacement, recycled payload address, parse-mutate-serialise, as_bits twice / returned bits scribbled), held "
+        "objects re-verified at the end. distinct = distinct (kind, variant, fields, cc, sync) / burst bit string / history spec"
     )
     ctx.trusted_base += [
         "Lean 4.33 kernel",
-        "tools/extract_burst.py (sync patterns, voice/data classification obtained by constructing Burst objects, data type values), extract_elements.py, extract.py (codes), extract_bptc.py, extract_trellis.py",
+        "tools/extract_burst.py (sync patterns, voice/data classification and resolution of the structured probe centres obtained by constructing Burst objects, data type values), extract_elements.py, extract.py (codes), extract_bptc.py, extract_trellis.py",
         "hand-written models Model/Burst.lean (+ Model/Bptc.lean of C02, Model/Trellis.lean of C10, Model/Pdu*.lean of C03) tied to the code by this run's correspondence",
         "CRC functions are parameters of the theorems; the driver's plain bitwise CRC is compared with the real code by the correspondence",
         "numpy / bitarray / enum are trusted as the substrate of the implementation",
@@ -260,10 +652,12 @@ def run(ctx):
     ctx.assumptions += [
         "payload objects are what the PDU constructors build from in-range field values (C03's WF predicates); full LC in the 96-bit form",
         "the assembled burst object is the one TransmissionGenerator builds: Burst(DataAndControl) with has_emb=False, sync, SlotType(cc, data type), data assigned",
+        "reuse histories change a payload by assigning its public attributes (to the values a constructor call with the new fields stores), replace slot_type / sync_or_embedded_signalling / data by new objects; slot type objects are not changed in place",
         "fec_parity_ok / emb_parity_ok / crc_ok (C04) are not compared",
     ]
     rng = ctx.rng
     pairs_build, pairs_parse = [], []
+    hold = Hold(every=ctx.budget(23, 97) // ctx.boost or 1, cap=400)
     # ---- corpus: the three repaired C03 defects surface here as field mismatches
     ks = payload_text.kinds
     corpus = [
@@ -298,7 +692,7 @@ def run(ctx):
                     ctx.case((kname, var.name, json.dumps(vals, sort_keys=True), cc, s.name),
                              sample={"kind": kname, "variant": var.name, "fields": vals, "cc": cc, "sync": s.name} if first and kname in ("csbk", "rate34") else None)
                     first = False
-                    check_data(ctx, kname, dt, src, var, vals, cc, s, pairs_build, pairs_parse, bts=("D", "V", "U") if cc % 5 == 0 else ("D",))
+                    check_data(ctx, kname, dt, src, var, vals, cc, s, pairs_build, pairs_parse, bts=("D", "V", "U") if cc % 5 == 0 else ("D",), hold=hold)
             ctx.count(f"data:{kname}:{var.name}", len(combos))
             # type-directed sweep
             i = 0
@@ -315,13 +709,47 @@ def run(ctx):
                     cc, s = rng.randrange(16), rng.choice(data)
                     ctx.case((kname, var.name, json.dumps(vals, sort_keys=True), cc, s.name))
                     ctx.count(f"data:{kname}:{var.name}")
-                    check_data(ctx, kname, dt, src, var, vals, cc, s, pairs_build, pairs_parse)
+                    check_data(ctx, kname, dt, src, var, vals, cc, s, pairs_build, pairs_parse, hold=hold)
             for _ in range(n_random):
                 vals = fix(var.random_vals(rng))
                 cc, s = rng.randrange(16), rng.choice(data)
                 ctx.case((kname, var.name, json.dumps(vals, sort_keys=True), cc, s.name))
                 ctx.count(f"data:{kname}:{var.name}")
-                check_data(ctx, kname, dt, src, var, vals, cc, s, pairs_build, pairs_parse, bts=(rng.choice("DVU"),))
+                check_data(ctx, kname, dt, src, var, vals, cc, s, pairs_build, pairs_parse, bts=(rng.choice("DVU"),), hold=hold)
+            # ---- object-reuse histories on one Burst object
+            n_hist = 12 if ctx.thorough() else min(ctx.boost, 3)  # (not x8 when the search is boosted: each history costs ~10 ms)
+            for script in HISTORY_SCRIPTS:
+                for _ in range(n_hist):
+                    vals1 = fix(var.random_vals(rng))
+                    if var.fix:
+                        vals1 = fix(var.fix(vals1))
+                    if "crc" in vals1 and rng.random() < 0.5 and kname not in ("vlc", "tlc"):
+                        vals1["crc"] = 0 if isinstance(vals1["crc"], int) else "0" * len(vals1["crc"])  # the constructor computes it
+                    vals2 = vary(rng, var, vals1, fix)
+                    cc1, cc2 = rng.sample(range(16), 2)
+                    s1, s2 = rng.sample(data, 2)
+                    spec = {"mode": "history", "script": script, "kind": kname, "c03kind": src.name, "variant": var.name, "fields": vals1,
+                            "fields2": vals2, "cc": cc1, "cc2": cc2, "sync": s1.name, "sync2": s2.name}
+                    ctx.case(("history", json.dumps(spec, sort_keys=True)),
+                             sample=spec if (kname, var.name, script) in (("csbk", "preamble", "mutate-fields"), ("rate34", "unconfirmed", "parse-mutate")) else None)
+                    ctx.count(f"reuse:{script}")
+                    run_history(ctx, spec, pairs_build, pairs_parse)
+        # ---- rate 1 payloads are on air as they are: blocks that hold a sync pattern (any alignment, across the 96/100 gap)
+        if kname == "rate1" and (tname == "unconfirmed" or ctx.thorough() or ctx.boost > 1):
+            var = src.variants[0]
+            dl = len(var.random_vals(rng)["data"]) // 2
+            for sp_ in voice + data + other:
+                for off in sorted({0, 48, 72, 8 * dl - 48} | {rng.randrange(8 * dl - 47) for _ in range(ctx.budget(1, 6))}):
+                    if off < 0 or off + 48 > 8 * dl:
+                        continue
+                    blk = int2ba(rng.getrandbits(8 * dl), length=8 * dl)
+                    blk[off:off + 48] = sp_.as_bits()
+                    vals = dict(var.random_vals(rng), data=blk.tobytes().hex())
+                    cc, s = rng.randrange(16), rng.choice(data)
+                    ctx.case((kname, var.name, json.dumps(vals, sort_keys=True), cc, s.name))
+                    ctx.count("structured:rate1-payload-holds-sync")
+                    check_data(ctx, kname, dt, src, var, vals, cc, s, pairs_build, pairs_parse, bts=("D", "U"), hold=hold,
+                               extra={"class": f"payload holds {sp_.name} at bit {off}"})
     if not ctx.search_only and ctx.driver_ok:
         ctx.correspond("burst.build", pairs_build)
         ctx.correspond("burst.parse(data)", pairs_parse)
@@ -337,7 +765,7 @@ def run(ctx):
                 if s in voice or (s in other and bt != "D"):
                     ctx.case(("voice-sync", s.name, bt, c03.sbits(v)), sample={"sync": s.name, "burst_type": bt, "vocoder_bits": c03.sbits(v)} if i == 2 and bt == "V" else None)
                     ctx.count(f"voice:sync:{s.name}")
-                    check_voice(ctx, x, bt, f"sync {s.name}", {"mode": "voice", "bits": c03.sbits(x), "burst_type": bt}, pairs_voice)
+                    check_voice(ctx, x, bt, f"sync {s.name}", {"mode": "voice", "bits": c03.sbits(x), "burst_type": bt}, pairs_voice, hold=hold, twice=i % 8 == 3)
                 else:
                     # outside the property (data path on arbitrary bits): correspondence only
                     q, out = impl_parse(x, bt)
@@ -355,13 +783,110 @@ def run(ctx):
                         ctx.case(("voice-emb", cc, pi, lcss, bt, c03.sbits(v), c03.sbits(e32)),
                                  sample={"cc": cc, "pi": pi, "lcss": lcss, "burst_type": bt, "embedded_bits": c03.sbits(e32)} if (cc, pi, lcss, i, bt) == (5, 1, 2, 1, "V") else None)
                         ctx.count("voice:emb")
-                        check_voice(ctx, x, bt, f"EMB cc={cc} pi={pi} lcss={lcss}", {"mode": "voice", "bits": c03.sbits(x), "burst_type": bt}, pairs_voice)
+                        check_voice(ctx, x, bt, f"EMB cc={cc} pi={pi} lcss={lcss}", {"mode": "voice", "bits": c03.sbits(x), "burst_type": bt}, pairs_voice, hold=hold, twice=i == 1)
                     # announced as data: outside the property, correspondence only
                     if i == 0:
                         q, out = impl_parse(x, "D")
                         pairs_voice.append((f"burst.parse D {c03.sbits(x)}", out))
+    # ---- structured voice bursts: minimal Hamming distance from every constant the parser compares the centre with
+    all_syncs = voice + data + other
+    values = {m.value: m for m in all_syncs}
+    embs = emb_table()
+    for s, (cc, pi, lcss), d, nflip, centre in near_sync_centres(rng, ctx.budget(8, 120), ctx.budget(0, 3) if ctx.thorough() else 0):
+        v = int2ba(rng.getrandbits(216), length=216)
+        x = voice_frame(v, centre)
+        dist = hd(centre, s.as_bits())
+        for bt in ("V", "U") if (nflip == 0 or dist <= 4) else (rng.choice("VU"),):
+            ctx.case(("voice-near-sync", s.name, cc, pi, lcss, bt, c03.sbits(x)),
+                     sample={"class": "EMB centre nearest to a sync", "sync": s.name, "cc": cc, "pi": pi, "lcss": lcss, "distance": dist, "burst_type": bt,
+                             "centre": c03.sbits(centre)} if (nflip, bt) == (0, "V") and dist <= 2 else None)
+            ctx.count(f"structured:emb-centre-near-sync:distance={dist if dist < 6 else '6+'}")
+            check_voice(ctx, x, bt, f"EMB cc={cc} pi={pi} lcss={lcss}, centre {dist} bits from {s.name}",
+                        {"mode": "voice", "bits": c03.sbits(x), "burst_type": bt, "class": f"valid EMB centre {dist} bits from sync {s.name}",
+                         "emb": [cc, pi, lcss]}, pairs_voice, hold=hold)
+    # the centre lookup itself on a much wider structured set; whatever it does not send to EmbeddedSignalling is a voice burst with
+    # valid EMB taken for a sync burst: promoted to the full check (concrete failing burst)
+    pairs_resolve, promoted = [], 0
+    for k, (s, (cc, pi, lcss), c) in enumerate(resolve_screen_centres(rng, ctx.budget(300, 4960))):
+        r, err = call(SP.resolve_bytes, c.to_bytes(6, "big"))
+        out = err or ("EMB" if r.value < 0 else str(r.value))
+        ctx.count("structured:centre-lookup-screen")
+        if k % 4 == 0 or out != "EMB":
+            pairs_resolve.append((f"sync.resolve {c}", out))
+        if out != "EMB" and c not in values and promoted < 64:
+            promoted += 1
+            ctx.count("structured:centre-lookup-screen:promoted")
+            centre = int2ba(c, length=48)
+            x = voice_frame(int2ba(rng.getrandbits(216), length=216), centre)
+            for bt in ("V", "U"):
+                ctx.case(("voice-screen", bt, c03.sbits(x)))
+                check_voice(ctx, x, bt, f"EMB cc={cc} pi={pi} lcss={lcss}, centre {hd(centre, s.as_bits())} bits from {s.name} (found by the lookup screen)",
+                            {"mode": "voice", "bits": c03.sbits(x), "burst_type": bt, "class": f"valid EMB centre resolved to {out} by SyncPatterns.resolve_bytes",
+                             "emb": [cc, pi, lcss]}, pairs_voice)
+    for s in all_syncs:  # the patterns and all their single-bit neighbours (not valid EMB: correspondence only)
+        for c in [s.value] + [s.value ^ (1 << i) for i in range(48)]:
+            r, err = call(SP.resolve_bytes, c.to_bytes(6, "big"))
+            pairs_resolve.append((f"sync.resolve {c}", err or ("EMB" if r.value < 0 else str(r.value))))
+            if c != s.value:
+                x = voice_frame(int2ba(rng.getrandbits(216), length=216), int2ba(c, length=48))
+                bt = rng.choice("DVU")
+                q, out = impl_parse(x, bt)
+                pairs_voice.append((f"burst.parse {bt} {c03.sbits(x)}", out))
+    # sync patterns inside the vocoder bits (a parser that searches for the sync must not find these)
+    for sp_ in all_syncs:
+        for off in (0, 29, 60, 108, 139, 168):
+            for kind in ("sync", "emb"):
+                v = int2ba(rng.getrandbits(216), length=216)
+                v[off:off + 48] = sp_.as_bits()
+                if kind == "sync":
+                    centre, what = rng.choice(voice).as_bits(), "voice sync"
+                else:
+                    cc, pi, lcss, e16 = rng.choice(embs)
+                    centre, what = e16[:8] + int2ba(rng.getrandbits(32), length=32) + e16[8:], f"EMB cc={cc} pi={pi} lcss={lcss}"
+                x = voice_frame(v, centre)
+                for bt in ("V", "U"):
+                    ctx.case(("voice-sync-in-vocoder", bt, c03.sbits(x)))
+                    ctx.count("structured:sync-pattern-inside-vocoder-bits")
+                    check_voice(ctx, x, bt, f"{what}, vocoder bits hold {sp_.name} at {off}",
+                                {"mode": "voice", "bits": c03.sbits(x), "burst_type": bt, "class": f"vocoder bits hold {sp_.name} at offset {off}"}, pairs_voice, hold=hold)
+    # a sync pattern a few bits off the centre of a voice burst with valid EMB (a parser that tolerates timing offsets must not lock on it)
+    for sp_, k, (cc, pi, lcss), miss, x in shifted_sync_frames(rng, [k for k in range(-12, 13) if k], ctx.budget(2, 6) // ctx.boost or 1):
+        for bt in ("V", "U"):
+            ctx.case(("voice-shifted-sync", bt, c03.sbits(x)))
+            ctx.count("structured:sync-pattern-shifted-off-centre")
+            check_voice(ctx, x, bt, f"EMB cc={cc} pi={pi} lcss={lcss}, {sp_.name} {k:+d} bits off the centre ({miss} EMB bits disagree)",
+                        {"mode": "voice", "bits": c03.sbits(x), "burst_type": bt, "class": f"{sp_.name} shifted {k:+d} bits off the centre", "emb": [cc, pi, lcss]}, pairs_voice, hold=hold)
+    # the EMB object of a parse result changed in place; second parse of the same octets
+    for cc, pi, lcss, e16 in embs[:: ctx.budget(4, 1) // ctx.boost or 1]:
+        x = voice_frame(int2ba(rng.getrandbits(216), length=216), e16[:8] + int2ba(rng.getrandbits(32), length=32) + e16[8:])
+        bt = rng.choice("VU")
+        ctx.case(("voice-emb-reuse", bt, c03.sbits(x)))
+        ctx.count("reuse:voice-emb-object-changed-in-place")
+        voice_emb_reuse(ctx, x, bt, rng.choice(embs), {"mode": "voice", "bits": c03.sbits(x), "burst_type": bt})
+    # valid slot type words (every colour code x every data type member) at the slot type positions of a voice burst
+    for cc_ in range(16):
+        for dtm in DT:
+            w, err = call(lambda: ST(colour_code=cc_, data_type=dtm).as_bits())
+            if err:
+                continue
+            v = int2ba(rng.getrandbits(216), length=216)
+            v[98:118] = w
+            if (cc_ + dtm.value) % 2:
+                centre, what = rng.choice(voice).as_bits(), "voice sync"
+            else:
+                cc, pi, lcss, e16 = rng.choice(embs)
+                centre, what = e16[:8] + int2ba(rng.getrandbits(32), length=32) + e16[8:], f"EMB cc={cc} pi={pi} lcss={lcss}"
+            x = voice_frame(v, centre)
+            for bt in ("V", "U"):
+                ctx.case(("voice-slot-type-in-vocoder", bt, c03.sbits(x)))
+                ctx.count("structured:slot-type-word-inside-voice-burst")
+                check_voice(ctx, x, bt, f"{what}, slot type positions hold the word of cc={cc_} {dtm.name}",
+                            {"mode": "voice", "bits": c03.sbits(x), "burst_type": bt, "class": f"slot type positions hold SlotType({cc_}, {dtm.name})"}, pairs_voice, hold=hold)
+    # ---- the objects held since the beginning of the run
+    hold.verify(ctx)
     if not ctx.search_only and ctx.driver_ok:
         ctx.correspond("burst.parse(voice)", pairs_voice)
+        ctx.correspond("sync.resolve", pairs_resolve)
     # ---- arbitrary and corrupted bursts, slot type and EMB words: correspondence only
     if not ctx.search_only and ctx.driver_ok:
         pairs_rand = []
@@ -412,15 +937,31 @@ def replay(obj):
     payload_text.kinds = {k.name: k for k in c03.kinds()}
     r = c03.ReplayCtx()
     pairs = []
+    h = Hold(1, 16)
     if inp.get("mode") == "data":
         srcs = {(k, s.name): (k, dt, s, t) for k, dt, s, t in payload_sources()}
         kname, dt, src, _ = srcs[(inp["kind"], inp["c03kind"])]
         var = next(v for v in src.variants if v.name == inp["variant"])
         pb = []
-        check_data(r, kname, dt, src, var, inp["fields"], inp["cc"], SP[inp["sync"]], pb, pairs, bts=("D", "V", "U"))
+        check_data(r, kname, dt, src, var, inp["fields"], inp["cc"], SP[inp["sync"]], pb, pairs, bts=("D", "V", "U"), hold=h)
         pairs = pb + pairs
     elif inp.get("mode") == "voice":
-        check_voice(r, bitarray(inp["bits"]), inp["burst_type"], "replay", inp, pairs)
+        check_voice(r, bitarray(inp["bits"]), inp["burst_type"], "replay", inp, pairs, hold=h, twice=True)
+        if "emb2" in inp:
+            voice_emb_reuse(r, bitarray(inp["bits"]), inp["burst_type"], tuple(inp["emb2"]) + (emb_word(*inp["emb2"]),),
+                            {k: v for k, v in inp.items() if k not in ("emb2", "history")})
+    elif inp.get("mode") == "history":
+        pb = []
+        run_history(r, {k: v for k, v in inp.items() if k != "step"}, pb, pairs)
+        pairs = pb + pairs
+    if h.items:
+        # objects held while other bursts are parsed and serialised, then looked at again
+        import random
+
+        rr = random.Random(0)
+        for _ in range(200):
+            call(lambda: Burst.from_bytes(rr.getrandbits(264).to_bytes(33, "big"), rr.choice(list(BT))).as_bytes())
+        h.verify(r)
     for line, out in pairs:
         print("model line    :", line[:400])
         print("implementation:", out[:700])
